@@ -366,3 +366,53 @@ def write_replay(prop, payload) -> str:
     with open(path, "w") as f:
         json.dump(canon(payload), f, indent=1, sort_keys=True)
     return os.path.relpath(path, VERIF)
+
+
+# ----------------------------------------------------------------------------- source fingerprints (see tools/mkfingerprints.py)
+def source_fingerprints(files):
+    """{"<file>::<qualified function>": sha256 of the function's AST without docstrings / line numbers} for the given files of REPO"""
+    import ast
+    import hashlib
+    out = {}
+    for rel in files:
+        path = os.path.join(REPO, rel)
+        if not os.path.exists(path):
+            out[rel + "::<file>"] = "missing"
+            continue
+        try:
+            tree = ast.parse(open(path).read())
+        except SyntaxError:
+            out[rel + "::<file>"] = "syntax-error"
+            continue
+
+        def visit(body, prefix):
+            for n in body:
+                if isinstance(n, (ast.FunctionDef, ast.AsyncFunctionDef)):
+                    b = list(n.body)
+                    if b and isinstance(b[0], ast.Expr) and isinstance(b[0].value, ast.Constant) and isinstance(b[0].value.value, str):
+                        b = b[1:]
+                    text = ast.dump(n.args) + "|" + "|".join(ast.dump(x) for x in b)
+                    out[f"{rel}::{prefix}{n.name}"] = hashlib.sha256(text.encode()).hexdigest()[:16]
+                elif isinstance(n, ast.ClassDef):
+                    visit(n.body, prefix + n.name + ".")
+        visit(tree.body, "")
+        # module-level statements other than defs / classes / imports / docstrings (constants, tables)
+        top = [ast.dump(n) for n in tree.body if not isinstance(n, (ast.FunctionDef, ast.AsyncFunctionDef, ast.ClassDef, ast.Import, ast.ImportFrom))
+               and not (isinstance(n, ast.Expr) and isinstance(n.value, ast.Constant))]
+        out[rel + "::<module level>"] = hashlib.sha256("|".join(top).encode()).hexdigest()[:16]
+    return out
+
+
+def changed_sources(prop):
+    """functions of the property's anchored files whose AST differs from tools/fingerprints.json; (list, base commit)"""
+    fp = os.path.join(VERIF, "tools", "fingerprints.json")
+    if not os.path.exists(fp):
+        return [], None
+    rec = json.load(open(fp))
+    old = rec.get("properties", {}).get(prop)
+    if old is None:
+        return [], rec.get("base_commit")
+    files = sorted({k.split("::")[0] for k in old})
+    new = source_fingerprints(files)
+    ch = sorted(k for k in set(old) | set(new) if old.get(k) != new.get(k))
+    return ch, rec.get("base_commit")
